@@ -54,7 +54,19 @@ Obs(st) == [i \in 1..Len(QuerySeq) |-> Code(Longest(st, QuerySeq[i]))]
 Has(st, q) == q \in DOMAIN st
 Size(st) == Cardinality(DOMAIN st)
 
-Step(a, k, v, st) == [a |-> a, k |-> k, v |-> v, size |-> Size(st), obs |-> Obs(st)]
+\* the history records only the calls; the predicted observations are attached when a behaviour is
+\* printed (Annotate), so that generating a successor does not cost a full observation
+Step(a, k, v, st) == [a |-> a, k |-> k, v |-> v]
+ApplyStep(st, s) == CASE s.a = "add"    -> [x \in (DOMAIN st) \cup {s.k} |-> IF x = s.k THEN s.v ELSE st[x]]
+                      [] s.a = "remove" -> [x \in (DOMAIN st) \ {s.k} |-> st[x]]
+                      [] s.a = "clear"  -> <<>>
+                      [] OTHER          -> st
+RECURSIVE Ann(_, _, _)
+Ann(h, i, st) == IF i > Len(h) THEN <<>>
+                 ELSE LET st2 == ApplyStep(st, h[i]) IN
+                      << [a |-> h[i].a, k |-> h[i].k, v |-> h[i].v, size |-> Size(st2), obs |-> Obs(st2)] >>
+                      \o Ann(h, i + 1, st2)
+Annotate(h) == Ann(h, 1, <<>>)
 
 TypeOK == /\ DOMAIN stored \subseteq Keys
           /\ \A k \in DOMAIN stored : stored[k] \in Values
@@ -123,12 +135,12 @@ GetIffStored == \A q \in Queries : (Longest(stored, q).len = Len(q) /\ Len(q) > 
 View == <<stored, frozen, autoFreeze>>
 
 \* generation: print every behaviour of length MaxHist once, and cut there
-Emit == Len(hist) < MaxHist \/ (PrintT(<<"B", ToJson(hist)>>) /\ FALSE)
+Emit == Len(hist) < MaxHist \/ (PrintT(<<"B", ToJson(Annotate(hist))>>) /\ FALSE)
 HistBound == Len(hist) <= MaxHist
 \* simulation: exactly one printed behaviour per simulated trace (a CONSTRAINT in -simulate mode is
 \* evaluated on every candidate successor of the last state and then ends the whole run in a deadlock)
 SimNext == \/ (Len(hist) < MaxHist /\ Next)
-           \/ (Len(hist) = MaxHist /\ PrintT(<<"B", ToJson(hist)>>) /\ UNCHANGED vars)
+           \/ (Len(hist) = MaxHist /\ PrintT(<<"B", ToJson(Annotate(hist))>>) /\ UNCHANGED vars)
 SimSpec == Init /\ [][SimNext]_vars
 QuerySeqOK == {QuerySeq[i] : i \in 1..Len(QuerySeq)} = Queries /\ Len(QuerySeq) = Cardinality(Queries)
 =============================================================================
